@@ -61,7 +61,9 @@ def run(ctx: Context) -> None:
         "else-branch raising ConnectionNotAvailable; R4 truth tables of is_available(); R5 provenance of every connection the pool hands to "
         "a request (filtered by that request's own origin and availability, or freshly created for that origin); R6 the response stream is "
         "bound to (this connection, this request, this stream id); R7 the HTTP/2 event table is indexed consistently (append under the "
-        "event's own id behind a membership guard, pop/del under the caller's id). Byte-level equality of delivered data is h11/h2 behaviour "
+        "event's own id behind a membership guard, pop/del under the caller's id); R8 send-state fidelity: a write failure escapes from every "
+        "HTTP/1.1 routine that feeds h11 (so h11's our_state cannot reach DONE for bytes that never reached the wire and the connection cannot "
+        "look reusable), and HTTP/2 network failures set the connection-error flag and re-raise. Byte-level equality of delivered data is h11/h2 behaviour "
         "and not decided."
     )
     for r, t in (("C01.R1", "only the role slots write the connection state, each its own constant"),
@@ -70,7 +72,8 @@ def run(ctx: Context) -> None:
                  ("C01.R4", "is_available(): HTTP/1.1 exactly IDLE; HTTP/2 false on closed/error/exhausted/terminated"),
                  ("C01.R5", "the pool hands out only available connections for the request's own origin, or fresh ones"),
                  ("C01.R6", "response byte stream bound to this connection, request and stream id"),
-                 ("C01.R7", "HTTP/2 event table keys are consistent")):
+                 ("C01.R7", "HTTP/2 event table keys are consistent"),
+                 ("C01.R8", "a failed network write/read is visible to the state machines: it aborts the HTTP/1.1 send phase and marks the HTTP/2 connection errored")):
         rep.rule(r, t)
     for tree, N in trees(ctx):
         h11c = N.cls("http11", "AsyncHTTP11Connection")
@@ -97,6 +100,7 @@ def run(ctx: Context) -> None:
         _r5(ctx, tree, N)
         _r6(ctx, tree, N, h11c, h2c)
         _r7(ctx, tree, N, h2c)
+        _r8(ctx, tree, N, h11c, h2c)
 
 
 def _atoms(node: ast.AST) -> set[str]:
@@ -324,3 +328,49 @@ def _r7(ctx: Context, tree: str, N: Names, h2c, rule: str = "C01.R7") -> None:
         for c in calls_named(f, "get"):
             if norm(c.func.value) == "self._events":
                 rep.ob(rule, fkey(tree, f, norm(c)), [norm(a) for a in c.args] == ["stream_id"], where(f, c), f"`{ast.unparse(c)}` looks up the routine's own stream id")
+
+
+def _r8(ctx: Context, tree: str, N: Names, h11c, h2c) -> None:
+    """Send-state fidelity.  h11's state advances when an event is handed to send(), *before* the bytes are
+    written; the connection is only safe to reuse if a failed write stops the send phase."""
+    rep = ctx.rep
+    esc = ctx.escape
+    feeders = []
+    for f in h11c.methods.values():
+        reach = ctx.callgraph.reachable([f])
+        emits = any(any(e == "h11.Connection.send" for e in s.ext_targets()) for q in reach for s in ctx.callgraph.sites_of(ctx.callgraph.funcs[q]))
+        if emits and f.name.startswith("_send"):
+            feeders.append(f)
+    rep.floor("C01.R8", f"HTTP/1.1 routines feeding h11.send ({tree})", len(feeders), 3)
+    for f in sorted(feeders, key=lambda x: x.name):
+        classes = esc.of(f).classes()
+        ok = "WriteError" in classes and "WriteTimeout" in classes
+        rep.ob("C01.R8", fkey(tree, f, "write-failure-escapes"), ok, where(f),
+               "a failed network write leaves this routine (the send phase stops; h11 stays un-DONE and the connection is closed, not reused)" if ok else
+               f"a failed network write is swallowed inside {f.short} (escapes: {sorted(c for c in classes if 'Write' in c)}): the send loop keeps feeding h11, whose our_state reaches DONE "
+               "although the request never reached the wire - the half-sent connection goes back to IDLE and is handed to the next request")
+    # the request routine may swallow WriteError only around the whole send phase, and nothing is sent afterwards
+    hr = h11c.methods[N.t("handle_async_request")]
+    cfg = ctx.cfg(hr)
+    for h in [x for x in own_nodes(hr.node) if isinstance(x, ast.ExceptHandler) and "WriteError" in esc.handler_types(hr.module, x)]:
+        hn = cfg._by_ast.get(id(h))
+        if not hn:
+            continue
+        after = cfg.reachable([hn[0]], follow=lambda e: e.kind != "exc")
+        resend = [n for n in cfg.nodes if n.id in after and n.ast is not None and n.kind == "stmt" and any(
+            isinstance(c, ast.Call) and (chain(c.func) or [""])[-1] in {f.name for f in feeders} for c in ast.walk(n.ast))]
+        rep.ob("C01.R8", fkey(tree, hr, "no-send-after-write-error"), not resend, where(hr, h),
+               "after a swallowed WriteError nothing more is fed to h11 (the response is read and the connection closed)" if not resend else f"after a swallowed WriteError the routine sends again at line {resend[0].lineno}")
+    # HTTP/2: network failures mark the connection errored and re-raise
+    for name in ("_read_incoming_data", "_write_outgoing_data"):
+        f = h2c.methods[name]
+        hs = [h for h in own_nodes(f.node) if isinstance(h, ast.ExceptHandler) and "Exception" in esc.handler_types(f.module, h)]
+        ok = False
+        for h in hs:
+            flag = any(isinstance(s_, ast.Assign) and norm(s_.targets[0]) == "self._connection_error" and norm(s_.value) == "True" for s_ in ast.walk(h))
+            rer = any(isinstance(x, ast.Raise) for x in h.body)
+            tr = parent(h)
+            covers = isinstance(tr, ast.Try) and any(isinstance(c, ast.Call) and norm(c.func) in ("self._network_stream.read", "self._network_stream.write") for st in tr.body for c in ast.walk(st))
+            ok = ok or (flag and rer and covers)
+        rep.ob("C01.R8", fkey(tree, f, "error-flag"), ok, where(f), "a network failure marks the HTTP/2 connection errored (unavailable for new requests) and re-raises" if ok else
+               f"{f.short}: a failed network operation does not set the connection-error flag / is not re-raised: the broken connection keeps accepting requests")
